@@ -356,7 +356,7 @@ pub mod g {
         s
     }
     /// a convex point set in general position: a jittered octahedron / box corners subset (hull keeps them all)
-    fn hull_pts3(r: &mut Rng, lat: bool) -> String {
+    pub fn hull_pts3(r: &mut Rng, lat: bool) -> String {
         let base: Vec<[f64; 3]> = match r.below(3) {
             0 => vec![[1.0, 0.0, 0.0], [-1.0, 0.0, 0.0], [0.0, 1.0, 0.0], [0.0, -1.0, 0.0], [0.0, 0.0, 1.0], [0.0, 0.0, -1.0]],
             1 => vec![[1.0, 1.0, 1.0], [-1.0, -1.0, 1.0], [-1.0, 1.0, -1.0], [1.0, -1.0, -1.0]],
